@@ -36,6 +36,15 @@ def gen_case(ctx, rng, i, tag='random'):
         fault = {'kind': 'stall', 'role': 'RemoteWorker._run_frontend', 'any_thread': True,
                  'qualname': rng.choice(['PersistentRemoteWorker._fetch_results', 'recv_msg']), 'occ': rng.randrange(2, 14),
                  'duration': rng.choice([0.5, 3.0, 20.0])}
+    elif kind == 'pthread' and rng.random() < 0.5:
+        # the old worker thread is descheduled inside its own shutdown (result already stored, end marker / pipe close still to do)
+        fault = {'kind': 'stall', 'role': 'ThreadWorker._run', 'any_thread': True,
+                 'qualname': rng.choice(['PersistentThreadWorker._cleanup', 'PersistentThreadWorker._cleanup', 'ThreadWorker._run']),
+                 'occ': rng.randrange(1, 12), 'duration': rng.choice([0.5, 3.0])}
+    elif kind == 'pprocess' and rng.random() < 0.3:
+        fault = {'kind': 'stall', 'role': 'child-main:ProcessWorker._run', 'any_thread': True,
+                 'qualname': rng.choice(['PersistentProcessWorker._cleanup', 'ProcessWorker._run']),
+                 'occ': rng.randrange(1, 14), 'duration': rng.choice([0.5, 3.0])}
     return {'kind': kind, 'states': states, 'own_pipe': own_pipe, 'timeout': rng.choice([0.05, 1]),
             'fill': rng.randrange(3400, 4080), 'restart_force': rng.choice([None, False]), 'fault': fault,
             'policy': pol, 'knobs': knobs, 'sched_seed': ctx.case_seed(tag, i)}
@@ -153,7 +162,7 @@ class Run:
                     if not self.child_alive(kind, old_child) and not front_alive:
                         self.viol('raises-only-if-unstoppable', f'runtimeerror-but-old-child-gone:{st}')
                     unstoppable = (kind == 'pthread' and (stuck or st == 'pipe-full')) or (stuck and kwr.get('force') is False) \
-                        or (kind == 'premote' and c.get('fault') is not None) or (st == 'pipe-full')
+                        or (c.get('fault') is not None) or (st == 'pipe-full')    # (a stalled old child / frontend may outlast the timeouts)
                     if not unstoppable:
                         self.viol('restart-succeeds', f'could-not-stop:{st}:{kind}')
                     return
